@@ -78,6 +78,9 @@ def gen_c01(rnd, n):
             reqs.append({"op": "pdelete", "pat": pattern_of(rnd, k), "c": c})
         elif r < 0.62:
             reqs.append({"op": "import", "tree": rnd_tree(rnd, pool)})
+        elif r < 0.635:
+            # a registration value that does not parse (answered with an error: must change nothing)
+            reqs.append({"op": "set", "key": ["$SYS", "clients", c, rnd.choice(["graveGoods", "lastWill"])], "val": rnd.choice(["v1", "j:7"]), "c": c})
         elif r < 0.70:
             reqs.append({"op": "get", "key": k if rnd.random() < 0.9 else pattern_of(rnd, k)})
         elif r < 0.76:
@@ -379,3 +382,19 @@ def gen_c08x(rnd, n):
             subs[c] = []
             reqs.append({"op": "disconnect", "c": c})
     return {"hdr": True, "meaning": {}, "proj": True}, reqs
+
+
+def gen_c17_core(rnd, n):
+    """histories only the core API can produce that take the core task down in a debug build:
+    the largest CAS version (import) and a plain null value across a restart"""
+    hdr, out = gen_c02_boundary(rnd, max(2, n // 2))
+    for i in range(max(2, n // 2)):
+        k = rnd.choice([["a", "b"], ["n"], ["c", "d", "e"]])
+        h = [{"op": "set", "key": k, "val": "j:null", "c": "c1"}, {"op": "set", "key": ["keep"], "val": "v1", "c": "c1"},
+             {"op": "restart", "layout": "v3", "toggle": rnd.random() < 0.5}, {"op": "get", "key": k}, {"op": "get", "key": ["keep"]}]
+        for j in range(rnd.randint(1, 4)):
+            h.append(rnd.choice([{"op": "delete", "key": ["keep"], "c": "c1"}, {"op": "pdelete", "pat": ["?"], "c": "c1"},
+                                 {"op": "set", "key": ["x", str(j)], "val": "v2", "c": "c2"}, {"op": "delete", "key": k, "c": "c2"}]))
+        h.append({"op": "get", "key": ["keep"]})
+        out.append(h)
+    return hdr, out
